@@ -36,6 +36,25 @@ THEOREMS = {
     "C09_variance": "variance = 1/precision repeated size times for every experiment; positive when precision is",
     "C09_all_rows": "predict_*_all returns n_thetas rows, row i = prediction of the i-th stored sample",
     "C09_avg_exact": "predict_*_avg entry j = (sum over samples of entry j) / n_thetas",
+    # the model is the source: Generated/SrcPredict.v is re-translated from /repo's common.py, data.py, models/sparse_combo.py on every run
+    "C09_model_is_source_copy_zero": "translation of the WHOLE copy_array_with_control_treatments_set_to_zero (fancy-index copy, mask `ids == CONTROL_SENTINEL_VALUE`, masked store of 0.0), for axis-0 entries of any shape: IndexError iff an id is outside [-n,n), else the model's zero_where over gather",
+    "C09_model_is_source_copy_zero_shapes": "at a matrix (rows zeroed) and at a vector (numbers zeroed) the translation is the model's gather_zero2 / gather_zero1",
+    "C09_model_is_source_predict": "translation of sparse_combo.predict on any arity-2 data = the model's sp_predict (Scr2): which embedding is gathered with which id column, products, row sums, intercept, Mu, the viability branch clip(expit(Mu), 0.01, 0.99); IndexError cases included",
+    "C09_model_is_source_predict_single_drug": "translation of sparse_combo.predict_single_drug on any arity-1 data = the model's sp_predict (Scr1)",
+    "C09_model_is_source_size_arity": "translations of ScreenBase.size / treatment_arity (treatment_ids.shape[0] / [1]) = the model's scr_size / arity",
+    "C09_model_is_source_predict_viability": "translation of SparseDrugComboMCMCSample.predict_viability (arity 1 -> predict_single_drug, 2 -> predict, viability=True, else NotImplementedError) = theta_predict KViab on the sparse type",
+    "C09_model_is_source_predict_conditional_mean": "same for predict_conditional_mean (viability=False) = theta_predict KMean",
+    "C09_model_is_source_predict_conditional_variance": "translation of predict_conditional_variance (np.repeat(1 / precision, repeats=data.size)) = the model's variance, ZeroDivisionError at precision 0.0 included",
+    "C09_model_is_source_inter_predict_conditional_mean": "translation of SparseDrugComboInteractionMCMCSample.predict_conditional_mean (arity guard, gathered W * zeroed V2 * zeroed V2 summed over the last axis) = theta_predict KMean on the interaction type",
+    "C09_model_is_source_inter_predict_viability": "translation of its predict_viability (guard, the mean, the comprehension of lookup[c,dd1]*lookup[c,dd2] over zip(sample_ids, column 0, column 1) with KeyError, clip, exp(interaction + log(single)), clip) = theta_predict KViab on the interaction type",
+    "C09_model_is_source_inter_predict_conditional_variance": "translation of its predict_conditional_variance = the model's variance",
+    "C09_model_is_source_theta_predict": "the model's Theta interface theta_predict = the dispatch to the six translated methods, every kind, both sample types, every screen",
+    "C09_model_is_source_predict_viability_all": "translation of models.main.predict_viability_all (np.zeros, loop over range(n_thetas), get_theta, the method, row store, NaN raise) = predict_all KViab, for ANY implementation of the Theta methods that agrees with the model on the stored samples",
+    "C09_model_is_source_predict_mean_all": "same for predict_mean_all = predict_all KMean",
+    "C09_model_is_source_predict_variance_all": "translation of predict_variance_all (append loop, size raise, NaN raise, np.stack with its ValueError on no samples) = predict_all KVar",
+    "C09_model_is_source_predict_mean_avg": "translation of predict_mean_avg (zeros, accumulation loop, division by n_thetas) = predict_avg KMean",
+    "C09_model_is_source_predict_viability_avg": "translation of predict_viability_avg = predict_avg KViab",
+    "C09_model_is_source_main": "the five translated helpers of models/main.py run over the six translated methods = predict_all / predict_avg: no hypothesis about the methods is left",
 }
 ASSUMPTIONS = [
     "numpy integer fancy indexing returns a fresh copy; a negative index i reads row i+n; outside [-n,n) raises IndexError (exercised: ids -1, last row, too-small embeddings)",
@@ -52,7 +71,37 @@ EXPLANATION = ("Model: Model/Predict.v (gather copy with python index -1 = last 
                "type only; the interaction type's exp-based formula is modelled as coded and the literal clause is stated as "
                "refuted for it (replayed on the real code by an extra check).  Observation: with an embedding of 0 rows the "
                "control sentinel itself is an invalid index (IndexError), so an all-control screen cannot be predicted by a "
-               "sample trained on an experiment space without treatments (index validity is a hypothesis of the property).")
+               "sample trained on an experiment space without treatments (index validity is a hypothesis of the property).  "
+               "SOURCE LINK (C09_model_is_source_*): copy_array_with_control_treatments_set_to_zero (common.py), ScreenBase.size / "
+               "treatment_arity (data.py), predict, predict_single_drug and SparseDrugComboMCMCSample.predict_viability / "
+               "predict_conditional_mean / predict_conditional_variance (models/sparse_combo.py), the same three methods of "
+               "SparseDrugComboInteractionMCMCSample (models/sparse_combo_interaction.py) and predict_viability_all / predict_mean_all / "
+               "predict_variance_all / predict_mean_avg / predict_viability_avg (models/main.py) are re-translated from VERIF_REPO into "
+               "coq/theories/Generated/SrcPredict.v on every run and proved equal to the model for all inputs (the model's screens standing "
+               "for the ScreenBase objects pydata_of gives; ScrN only at arities other than 1 and 2).  Which embedding is gathered with "
+               "which id column, what is multiplied / added / summed, the control zeroing, the viability branch, the arity dispatch and "
+               "its raise come from the translation.  Trusted: the translator harness/py2gal.py (incl. typed operator prims under "
+               "`overload`, raising assign_effects) and the primitives of the C09_* configurations in harness/src_functions.py, one "
+               "attribute / operator / call each: the seven dataclass fields of the sample (sW .. sprec); data.sample_ids, "
+               "data.treatment_ids; a.shape[0], a.shape[1] of the id matrix; a[:, k] (np_col: column k, IndexError outside the arity); "
+               "a[ids] = a[ids, ...] (np_take: fresh array, negative index + n, IndexError outside [-n,n)); ids == v (np_eq_scalar); "
+               "results[mask, ...] = 0.0 (np_mask_zero: entries of axis 0 under the mask become zeros, IndexError on a mask of another "
+               "length); CONTROL_SENTINEL_VALUE (Generated/Consts.v, re-read from common.py); the elementwise operators float + vec "
+               "(sadd), vec + vec (vadd), mat + mat (madd), mat * mat (mmul) for operands of EQUAL shape (numpy broadcasting of unequal "
+               "shapes / its ValueError is not represented, as in the model); np.sum(x, -1) (sum_last); scipy expit (the oracle, "
+               "entrywise); np.clip(x, a_min, a_max) (vclip); the literals 0.01, 0.99 as exact rationals; 1 / p (py_recip: "
+               "ZeroDivisionError at 0.0); np.repeat(x, repeats=n).  Interaction type: its fields W, V2, precision; zip(a, b, c) (zip3); "
+               "single_effect_lookup[c, d] (lookup_key: the value under the key, KeyError when absent); float * float (qmul); np.exp, "
+               "np.log (the oracle, entrywise); np.clip of a Python list of floats.  models/main.py: thetas.n_thetas (the declared "
+               "count h_n), thetas.get_theta(i) (holder_get: ValueError outside 0..len-1, as ThetaHolder.get_theta which C10 links), "
+               "the three Theta method calls (the parameter pm; the theorem C09_model_is_source_main instantiates it with the "
+               "translated methods), np.zeros((n,)) / np.zeros((n, m)); result[i, :] (np_row); result[i, :] = v (np_set_row: "
+               "IndexError outside, ValueError unless v has the row's length or length 1 = broadcast); np.isnan(x).any() / "
+               "np.any(np.isnan(x)) (false: no NaN over the rationals, the floating-point abstraction of the model); x.size; "
+               "np.stack (ValueError on no arrays / unequal lengths); vec + vec; vec / int (np_div_int: entrywise, by 0 a non-empty "
+               "array becomes non-finite = the model's ERR_NAN).  Calls of translated functions (copy_array_..., predict, "
+               "predict_single_drug, self.predict_conditional_mean, data.size, data.treatment_arity) run their translations.  "
+               "Translator additions used: `T1 | T2` variable types (result in predict_variance_all), tuple-target comprehensions.")
 
 NAMES = ["a", "b", "c", "d"]
 DOSES = [0.5, 1.0, 2.0]
